@@ -44,22 +44,25 @@ Section Glue.
 
   (* sfuel: a unary bound for the chain walk, built once at creation (N.to_nat of the capacity per put would cost
      O(capacity) each time when the model is executed) *)
-  Record state := { tbl : table node; opc : cache; sfuel : nat }.
+  Record state := { tbl : table node; opc : cache; sfuel : nat; peak : N }.
+  (* peak: a ghost register, written by every successful put and read by nothing: the largest number of simultaneously
+     stored nodes seen so far (C06: the invariant below ties the table's high-water mark to it) *)
 
   Definition ccell (s : state) (i : N) : option node :=
     if occ (tget (data (tbl s)) i) && (1 <? i) then Some (value (tget (data (tbl s)) i)) else None.
   Definition cput_node (s : state) (n : node) : option (state * N) :=
     match TableProto.put node node_eqb nhash (sfuel s) (tbl s) n with
-    | Ok (t', i) => Some ({| tbl := t'; opc := opc s; sfuel := sfuel s |}, i)
+    | Ok (t', i) => Some ({| tbl := t'; opc := opc s; sfuel := sfuel s; peak := N.max (peak s) (real_size t') |}, i)
     | _ => None
     end.
   Definition cTInv (s : state) : Prop :=
-    AInv (tbl s) /\ TableProto.CInv node nhash pin (tbl s) /\ occupied (tbl s) 1 /\ (N.to_nat (cap (tbl s)) <= sfuel s)%nat.
+    AInv (tbl s) /\ TableProto.CInv node nhash pin (tbl s) /\ occupied (tbl s) 1 /\ (N.to_nat (cap (tbl s)) <= sfuel s)%nat /\
+    Peak node (tbl s) (peak s).
 
   Instance concrete_ops : StoreOps := {|
     st := state; cell := ccell; put := cput_node;
     cget := fun s k => cache_get (opc s) k;
-    cput := fun s k r => {| tbl := tbl s; opc := cache_put (opc s) k r; sfuel := sfuel s |};
+    cput := fun s k r => {| tbl := tbl s; opc := cache_put (opc s) k r; sfuel := sfuel s; peak := peak s |};
     TInv := cTInv |}.
 
   Lemma ccell_some s i n : ccell s i = Some n <-> occupied (tbl s) i /\ 1 < i /\ val (tbl s) i = n.
@@ -85,9 +88,16 @@ Section Glue.
   Lemma cput_none_full s n : cTInv s -> cput_node s n = None ->
     TableProto.put node node_eqb nhash (sfuel s) (tbl s) n = Full.
   Proof.
-    intros (HA & HC & _ & HF) H. unfold cput_node in H.
+    intros (HA & HC & _ & HF & _) H. unfold cput_node in H.
     pose proof (put_no_fuel node node_eqb nhash pin (sfuel s) (tbl s) n HA HC HF) as Hnf.
     destruct (TableProto.put node node_eqb nhash (sfuel s) (tbl s) n) as [[t' i]| |]; [discriminate|reflexivity|contradiction].
+  Qed.
+
+  (* ... and then the table really is full: every cell 1 .. cap-1 is occupied and the high-water mark is at the end *)
+  Lemma cput_none_storage_full s n : cTInv s -> cput_node s n = None -> storage_full node (tbl s).
+  Proof.
+    intros HT H. pose proof (cput_none_full s n HT H) as Hf. destruct HT as (HA & _).
+    exact (put_full_storage node node_eqb nhash _ _ _ HA Hf).
   Qed.
 
   Instance concrete_ok : @StoreOK concrete_ops.
@@ -97,28 +107,28 @@ Section Glue.
     - (* put_spec *)
       intros s n s' i HT Hp. cbn in Hp. unfold cput_node in Hp.
       destruct (TableProto.put node node_eqb nhash _ (tbl s) n) as [[t' j]| |] eqn:E; try discriminate.
-      injection Hp as <- <-. destruct HT as (HA & HC & H1 & HF).
+      injection Hp as <- <-. destruct HT as (HA & HC & H1 & HF & HP).
       destruct (put_ok node node_eqb node_eqb_spec nhash pin _ _ _ _ _ HA HC E) as (HA' & HC' & Hv & Hch & Hnb & Hcap & Hcase).
       assert (Hj1 : 1 < j).
       { destruct Hch as (Ho & H0 & Hp). unfold pin in Hp. apply N.eqb_neq in Hp. lia. }
-      assert (Hframe : forall k, k <> j -> ccell {| tbl := t'; opc := opc s; sfuel := sfuel s |} k = ccell s k).
+      assert (Hframe : forall k, k <> j -> ccell {| tbl := t'; opc := opc s; sfuel := sfuel s; peak := N.max (peak s) (real_size t') |} k = ccell s k).
       { intros k Hk. destruct Hcase as [[-> _]|(_ & _ & Hfr & _)]; [reflexivity|].
         destruct (Hfr k Hk) as [Ho Hv']. unfold ccell; cbn. unfold occupied, val in Ho, Hv'.
         rewrite Hv'. destruct (occ (tget (data t') k)) eqn:O1, (occ (tget (data (tbl s)) k)) eqn:O2; auto;
           [destruct Ho as [Ho _]; specialize (Ho eq_refl); discriminate|destruct Ho as [_ Ho]; specialize (Ho eq_refl); discriminate]. }
-      assert (Hcellj : ccell {| tbl := t'; opc := opc s; sfuel := sfuel s |} j = Some n).
+      assert (Hcellj : ccell {| tbl := t'; opc := opc s; sfuel := sfuel s; peak := N.max (peak s) (real_size t') |} j = Some n).
       { apply ccell_some; cbn. destruct Hch as (Ho & _). auto. }
       splits; auto.
-      + (* TInv *) split; [exact HA'|]. split; [exact HC'|]. split; [|cbn [tbl sfuel]; rewrite Hcap; exact HF].
+      + (* TInv *) split; [exact HA'|]. split; [exact HC'|]. split; [|split; [cbn [tbl sfuel]; rewrite Hcap; exact HF|cbn [tbl peak]; exact (put_peak node node_eqb node_eqb_spec nhash pin _ _ _ _ _ _ HA HC E HP)]].
         destruct Hcase as [[-> _]|(_ & _ & Hfr & _)]; [exact H1|]. apply (Hfr 1); [lia|exact H1].
-      + (* sext *) intros k nk Hk. change (ccell s k = Some nk) in Hk. change (ccell {| tbl := t'; opc := opc s; sfuel := sfuel s |} k = Some nk). destruct (N.eq_dec k j) as [->|Hne]; [|now rewrite Hframe].
+      + (* sext *) intros k nk Hk. change (ccell s k = Some nk) in Hk. change (ccell {| tbl := t'; opc := opc s; sfuel := sfuel s; peak := N.max (peak s) (real_size t') |} k = Some nk). destruct (N.eq_dec k j) as [->|Hne]; [|now rewrite Hframe].
         rewrite Hcellj. destruct Hcase as [[-> _]|(Hfree & _)].
         * rewrite <- Hk. symmetry. exact Hcellj.
         * apply ccell_some in Hk. destruct Hk as (Ho & _). contradiction.
       + lia.
     - (* uniq *)
       intros s i j n HT Hi Hj. cbn in Hi, Hj. apply ccell_some in Hi, Hj.
-      destruct Hi as (Oi & Li & Vi), Hj as (Oj & Lj & Vj). destruct HT as (HA & HC & H1 & HF).
+      destruct Hi as (Oi & Li & Vi), Hj as (Oj & Lj & Vj). destruct HT as (HA & HC & H1 & HF & HP).
       assert (HTs : cTInv s) by (unfold cTInv; auto).
       apply (c_uniq _ _ _ _ HC i j).
       + apply (chained_iff s _ HTs). split; assumption.
@@ -141,10 +151,30 @@ Section Glue.
     | None => None
     | Some vis =>
       match sweep_all node (fun i => memN i vis) fuel (tbl s) (bucket_list (tbl s)) with
-      | Ok t' => Some {| tbl := t'; opc := cache_clear (opc s); sfuel := sfuel s |}
+      | Ok t' => Some {| tbl := t'; opc := cache_clear (opc s); sfuel := sfuel s; peak := peak s |}
       | _ => None
       end
     end.
+
+  (* the ghost register: a successful put records the running maximum of the live count; gc and cache writes keep it *)
+  Lemma peak_put s n s' i : cput_node s n = Some (s', i) -> peak s' = N.max (peak s) (real_size (tbl s')).
+  Proof.
+    unfold cput_node. destruct (TableProto.put node node_eqb nhash (sfuel s) (tbl s) n) as [[t' j]| |]; try discriminate.
+    intro H. injection H as <- <-. reflexivity.
+  Qed.
+  Lemma peak_gc fuel s roots s' : gc fuel s roots = Some s' -> peak s' = peak s.
+  Proof.
+    unfold gc. destruct (@descendants concrete_ops fuel s roots); [|discriminate].
+    destruct (sweep_all _ _ _ _ _); try discriminate. intro H. injection H as <-. reflexivity.
+  Qed.
+  (* C06: in every state satisfying the manager invariant the high-water mark is that maximum *)
+  Lemma high_water_is_peak s : cTInv s -> last_index (tbl s) = peak s /\ real_size (tbl s) <= peak s.
+  Proof. intros (_ & _ & _ & _ & HP). exact HP. Qed.
+  (* a put succeeds whenever one cell is still free *)
+  Lemma cput_succeeds_when_room s n : cTInv s -> real_size (tbl s) + 1 < cap (tbl s) -> cput_node s n <> None.
+  Proof.
+    intros HT Hroom Hn. destruct (cput_none_storage_full s n HT Hn) as (H1 & H2 & _). lia.
+  Qed.
 
   Lemma bucket_list_ok t : NoDup (bucket_list t) /\ (forall b, In b (bucket_list t) <-> b < nb t).
   Proof. unfold bucket_list. split; [apply nrange_nodup|]. intro b. rewrite nrange_in. lia. Qed.
@@ -162,7 +192,7 @@ Section Glue.
     intros HI Hroots H. unfold gc in H.
     destruct (@descendants concrete_ops fuel s roots) as [vis|] eqn:Hd; [|discriminate].
     destruct (sweep_all _ _ _ _ _) as [t'| |] eqn:Hs; try discriminate. injection H as <-.
-    pose proof HI as [(HA & HC & H1 & HF) HN].
+    pose proof HI as [(HA & HC & H1 & HF & HP) HN].
     assert (Hcl : @closed concrete_ops s) by (apply closed_of_inv; exact HI).
     assert (Hrok : forall r, In r roots -> @okidx concrete_ops s (idx r)).
     { intros r Hr. destruct (Hroots r Hr) as (t & (HR & _)). destruct t; [left; now apply Rep_leaf_inv in HR|right].
@@ -174,7 +204,7 @@ Section Glue.
     { eapply sweep_all_G; eauto using G_init. - now rewrite app_nil_r. - intros b Hb; now apply Hbl. }
     destruct (G_final node nhash pin alive (tbl s) t' _ HA HC HG) as (HA' & HC' & Hv' & Ho' & Hnb' & Hcap').
     { intros b Hb. rewrite app_nil_r, <- in_rev. now apply Hbl. }
-    set (s' := {| tbl := t'; opc := cache_clear (opc s); sfuel := sfuel s |}).
+    set (s' := {| tbl := t'; opc := cache_clear (opc s); sfuel := sfuel s; peak := peak s |}).
     assert (Halive : forall i, alive i = true <-> (i = 1 \/ exists r, In r roots /\ @Reach concrete_ops s (idx r) i)).
     { intro i. unfold alive. rewrite memN_spec. apply Hvis. }
     assert (HTs : cTInv s) by (unfold cTInv; auto).
@@ -189,7 +219,7 @@ Section Glue.
     { intros r t HV Ha. eapply (V_restrict s s' (fun i => alive i = true)); eauto.
       intros i n Hc Hai. apply Hcell'. auto. }
     assert (HT' : cTInv s').
-    { unfold cTInv; cbn [tbl s' sfuel]. splits; auto; [|rewrite Hcap'; exact HF]. apply Ho'. split; [exact H1|]. intros (_ & _ & Hp). discriminate. }
+    { unfold cTInv; cbn [tbl s' sfuel peak]. splits; auto; [|rewrite Hcap'; exact HF|exact (proj1 (G_peak node nhash pin alive (tbl s) t' _ (peak s) HG HA HP))]. apply Ho'. split; [exact H1|]. intros (_ & _ & Hp). discriminate. }
     assert (HI' : @Inv concrete_ops s').
     { split; [exact HT'|]. intros i n Hc. apply Hcell' in Hc. destruct Hc as [Hc Ha].
       destruct (HN i n Hc) as (t & Ht). exists t. apply HVr; auto. }
